@@ -55,6 +55,80 @@ def apply_mutant(repo: Repo, m: dict) -> Repo | None:
     return repo.with_overlay(overlay)
 
 
+def _apply_unified_diff(repo: Repo, patch_text: str) -> dict | None:
+    """Apply a unified diff to the in-memory source of `repo`; returns {rel: new_text} or None if a hunk does not
+    apply (the anchor moved on, e.g. because a later fix touched the same lines)."""
+    import re
+    overlay: dict[str, str] = {}
+    files = re.split(r"^diff --git .*$", patch_text, flags=re.M)
+    for chunk in files:
+        m = re.search(r"^\+\+\+ b/(.+)$", chunk, flags=re.M)
+        if not m:
+            continue
+        rel = m.group(1).strip()
+        try:
+            lines = overlay.get(rel, repo.read(rel)).split("\n")
+        except AnchorError:
+            return None
+        hunks = re.split(r"^@@ .*@@.*$", chunk, flags=re.M)[1:]
+        heads = re.findall(r"^@@ -(\d+)(?:,\d+)? \+(\d+)(?:,\d+)? @@", chunk, flags=re.M)
+        offset = 0
+        for (old_start, _new_start), body in zip(heads, hunks):
+            hl = body.split("\n")[1:]
+            if hl and hl[-1] == "":
+                hl = hl[:-1]
+            old_blk = [l[1:] for l in hl if l[:1] in (" ", "-")]
+            new_blk = [l[1:] for l in hl if l[:1] in (" ", "+")]
+            start = int(old_start) - 1 + offset
+            pos = None
+            for d in sorted(range(-400, 401), key=abs):
+                if 0 <= start + d and lines[start + d:start + d + len(old_blk)] == old_blk:
+                    pos = start + d
+                    break
+            if pos is None:
+                return None
+            lines[pos:pos + len(old_blk)] = new_blk
+            offset += len(new_blk) - len(old_blk) + (pos - start)
+        overlay[rel] = "\n".join(lines)
+    return overlay or None
+
+
+def seeded_regression(mod, prop: str, repo: Repo, base_keys: set) -> dict:
+    """thorough tier: every independently seeded, confirmed change kept under /verif/seeded/<PROP>-<k>/ is applied to an
+    in-memory overlay of the current tree; the check must report a new finding on it."""
+    res = {"applied": 0, "detected": 0, "stale": [], "missed": []}
+    sd = os.path.join(report.VERIF, "seeded")
+    if not os.path.isdir(sd):
+        return res
+    for d in sorted(os.listdir(sd)):
+        if not d.startswith(prop + "-"):
+            continue
+        pf = os.path.join(sd, d, "patch.diff")
+        if not os.path.isfile(pf):
+            continue
+        ov = _apply_unified_diff(repo, open(pf).read())
+        if ov is None:
+            res["stale"].append(d)
+            continue
+        try:
+            for rel, txt in ov.items():
+                compile(txt, rel, "exec")
+        except SyntaxError:
+            res["stale"].append(d)
+            continue
+        res["applied"] += 1
+        try:
+            mctx = run_rules(mod, prop, repo.with_overlay(ov), "quick")
+            hit = [f for f in mctx.findings if f.key() not in base_keys]
+        except (AnchorError, Undecided):
+            hit = []
+        if hit:
+            res["detected"] += 1
+        else:
+            res["missed"].append(d)
+    return res
+
+
 def selftest(mod, prop: str, repo: Repo, base_keys: set, only_controls: bool) -> dict:
     res = {"applied": 0, "detected": 0, "stale": [], "missed": [], "detected_names": [], "errors": []}
     for m in getattr(mod, "MUTANTS", []):
@@ -158,7 +232,15 @@ def main(argv=None) -> int:
         if st["missed"]:
             errors.append("self-test: seeded mutant(s) not detected: " + ", ".join(st["missed"])
                           + ("; " + "; ".join(st["errors"]) if st["errors"] else ""))
+    sr = None
+    if not a.no_selftest and not errors and a.tier == "thorough":
+        sr = seeded_regression(mod, prop, repo, seen_keys)
+        if sr["missed"]:
+            errors.append("seeded regression: confirmed seeded change(s) no longer detected: " + ", ".join(sr["missed"]))
     extra = {}
+    if sr is not None:
+        extra["seeded_regression"] = dict(sr, what="independently seeded, coordinator-confirmed changes under /verif/seeded applied as "
+                                          "in-memory overlays of the current tree; each must produce a new finding")
     if st is not None:
         extra["selftest"] = {k: st[k] for k in ("applied", "detected", "stale", "missed", "detected_names")}
         extra["selftest"]["what"] = ("each seeded mutant is a single source edit applied to an in-memory overlay "
@@ -173,6 +255,7 @@ def main(argv=None) -> int:
           f"discharged={sum(1 for o in ctx.obligations if o.ok)} known={len(known_hits)} "
           f"violations={len(violations)} "
           + (f"selftest={st['detected']}/{st['applied']} (stale {len(st['stale'])}) " if st else "")
+          + (f"seeded={sr['detected']}/{sr['applied']} (stale {len(sr['stale'])}) " if sr else "")
           + f"wall={wall:.2f}s")
     if a.verbose:
         for o in ctx.obligations:
